@@ -95,18 +95,31 @@ where
         Self { counters, gauges, histograms, shard_mask, storage }
     }
 
+    /// Number of shards each metric kind is split into (verification hook).
+    #[cfg(metrics_verif)]
+    #[doc(hidden)]
+    pub fn __verif_shard_count(&self) -> usize {
+        self.shard_mask + 1
+    }
+
     /// Removes all metrics from the registry.
     ///
     /// This operation is eventually consistent: metrics will be removed piecemeal, and this method
     /// does not ensure that callers will see the registry as entirely empty at any given point.
     pub fn clear(&self) {
         for shard in &self.counters {
+            #[cfg(metrics_verif)]
+            metrics::__verif::yield_point(613);
             shard.write().unwrap_or_else(PoisonError::into_inner).clear();
         }
         for shard in &self.gauges {
+            #[cfg(metrics_verif)]
+            metrics::__verif::yield_point(613);
             shard.write().unwrap_or_else(PoisonError::into_inner).clear();
         }
         for shard in &self.histograms {
+            #[cfg(metrics_verif)]
+            metrics::__verif::yield_point(613);
             shard.write().unwrap_or_else(PoisonError::into_inner).clear();
         }
     }
@@ -123,6 +136,8 @@ where
         F: FnMut(&K, &S::Counter),
     {
         for subshard in self.counters.iter() {
+            #[cfg(metrics_verif)]
+            metrics::__verif::yield_point(614);
             let shard_read = subshard.read().unwrap_or_else(PoisonError::into_inner);
             for (key, counter) in shard_read.iter() {
                 collect(key, counter);
@@ -141,6 +156,8 @@ where
         F: FnMut(&K, &S::Gauge),
     {
         for subshard in self.gauges.iter() {
+            #[cfg(metrics_verif)]
+            metrics::__verif::yield_point(614);
             let shard_read = subshard.read().unwrap_or_else(PoisonError::into_inner);
             for (key, gauge) in shard_read.iter() {
                 collect(key, gauge);
@@ -160,6 +177,8 @@ where
         F: FnMut(&K, &S::Histogram),
     {
         for subshard in self.histograms.iter() {
+            #[cfg(metrics_verif)]
+            metrics::__verif::yield_point(614);
             let shard_read = subshard.read().unwrap_or_else(PoisonError::into_inner);
             for (key, histogram) in shard_read.iter() {
                 collect(key, histogram);
@@ -176,6 +195,8 @@ where
         F: FnMut(&K, &S::Counter) -> bool,
     {
         for subshard in self.counters.iter() {
+            #[cfg(metrics_verif)]
+            metrics::__verif::yield_point(612);
             let mut shard_write = subshard.write().unwrap_or_else(PoisonError::into_inner);
             shard_write.retain(|k, c| f(k, c));
         }
@@ -190,6 +211,8 @@ where
         F: FnMut(&K, &S::Gauge) -> bool,
     {
         for subshard in self.gauges.iter() {
+            #[cfg(metrics_verif)]
+            metrics::__verif::yield_point(612);
             let mut shard_write = subshard.write().unwrap_or_else(PoisonError::into_inner);
             shard_write.retain(|k, g| f(k, g));
         }
@@ -204,6 +227,8 @@ where
         F: FnMut(&K, &S::Histogram) -> bool,
     {
         for subshard in self.histograms.iter() {
+            #[cfg(metrics_verif)]
+            metrics::__verif::yield_point(612);
             let mut shard_write = subshard.write().unwrap_or_else(PoisonError::into_inner);
             shard_write.retain(|k, h| f(k, h));
         }
@@ -272,6 +297,8 @@ where
     /// Returns `true` if the counter existed and was removed, `false` otherwise.
     pub fn delete_counter(&self, key: &K) -> bool {
         let (hash, shard) = self.get_hash_and_shard_for_counter(key);
+        #[cfg(metrics_verif)]
+        metrics::__verif::yield_point(610);
         let mut shard_write = shard.write().unwrap_or_else(PoisonError::into_inner);
         let entry = shard_write.raw_entry_mut().from_key_hashed_nocheck(hash, key);
         if let RawEntryMut::Occupied(entry) = entry {
@@ -287,6 +314,8 @@ where
     /// Returns `true` if the gauge existed and was removed, `false` otherwise.
     pub fn delete_gauge(&self, key: &K) -> bool {
         let (hash, shard) = self.get_hash_and_shard_for_gauge(key);
+        #[cfg(metrics_verif)]
+        metrics::__verif::yield_point(610);
         let mut shard_write = shard.write().unwrap_or_else(PoisonError::into_inner);
         let entry = shard_write.raw_entry_mut().from_key_hashed_nocheck(hash, key);
         if let RawEntryMut::Occupied(entry) = entry {
@@ -302,6 +331,8 @@ where
     /// Returns `true` if the histogram existed and was removed, `false` otherwise.
     pub fn delete_histogram(&self, key: &K) -> bool {
         let (hash, shard) = self.get_hash_and_shard_for_histogram(key);
+        #[cfg(metrics_verif)]
+        metrics::__verif::yield_point(610);
         let mut shard_write = shard.write().unwrap_or_else(PoisonError::into_inner);
         let entry = shard_write.raw_entry_mut().from_key_hashed_nocheck(hash, key);
         if let RawEntryMut::Occupied(entry) = entry {
@@ -315,6 +346,8 @@ where
     /// Gets a copy of an existing counter.
     pub fn get_counter(&self, key: &K) -> Option<S::Counter> {
         let (hash, shard) = self.get_hash_and_shard_for_counter(key);
+        #[cfg(metrics_verif)]
+        metrics::__verif::yield_point(611);
         let shard_read = shard.read().unwrap_or_else(PoisonError::into_inner);
         shard_read.raw_entry().from_key_hashed_nocheck(hash, key).map(|(_, v)| v.clone())
     }
@@ -322,6 +355,8 @@ where
     /// Gets a copy of an existing gauge.
     pub fn get_gauge(&self, key: &K) -> Option<S::Gauge> {
         let (hash, shard) = self.get_hash_and_shard_for_gauge(key);
+        #[cfg(metrics_verif)]
+        metrics::__verif::yield_point(611);
         let shard_read = shard.read().unwrap_or_else(PoisonError::into_inner);
         shard_read.raw_entry().from_key_hashed_nocheck(hash, key).map(|(_, v)| v.clone())
     }
@@ -329,6 +364,8 @@ where
     /// Gets a copy of an existing histogram.
     pub fn get_histogram(&self, key: &K) -> Option<S::Histogram> {
         let (hash, shard) = self.get_hash_and_shard_for_histogram(key);
+        #[cfg(metrics_verif)]
+        metrics::__verif::yield_point(611);
         let shard_read = shard.read().unwrap_or_else(PoisonError::into_inner);
         shard_read.raw_entry().from_key_hashed_nocheck(hash, key).map(|(_, v)| v.clone())
     }
@@ -350,12 +387,16 @@ where
         let (hash, shard) = self.get_hash_and_shard_for_counter(key);
 
         // Try and get the handle if it exists, running our operation if we succeed.
+        #[cfg(metrics_verif)]
+        metrics::__verif::yield_point(601);
         let shard_read = shard.read().unwrap_or_else(PoisonError::into_inner);
         if let Some((_, v)) = shard_read.raw_entry().from_key_hashed_nocheck(hash, key) {
             op(v)
         } else {
             // Switch to write guard and insert the handle first.
             drop(shard_read);
+            #[cfg(metrics_verif)]
+            metrics::__verif::yield_point(602);
             let mut shard_write = shard.write().unwrap_or_else(PoisonError::into_inner);
             let v = if let Some((_, v)) = shard_write.raw_entry().from_key_hashed_nocheck(hash, key)
             {
@@ -384,12 +425,16 @@ where
         let (hash, shard) = self.get_hash_and_shard_for_gauge(key);
 
         // Try and get the handle if it exists, running our operation if we succeed.
+        #[cfg(metrics_verif)]
+        metrics::__verif::yield_point(601);
         let shard_read = shard.read().unwrap_or_else(PoisonError::into_inner);
         if let Some((_, v)) = shard_read.raw_entry().from_key_hashed_nocheck(hash, key) {
             op(v)
         } else {
             // Switch to write guard and insert the handle first.
             drop(shard_read);
+            #[cfg(metrics_verif)]
+            metrics::__verif::yield_point(602);
             let mut shard_write = shard.write().unwrap_or_else(PoisonError::into_inner);
             let v = if let Some((_, v)) = shard_write.raw_entry().from_key_hashed_nocheck(hash, key)
             {
@@ -418,12 +463,16 @@ where
         let (hash, shard) = self.get_hash_and_shard_for_histogram(key);
 
         // Try and get the handle if it exists, running our operation if we succeed.
+        #[cfg(metrics_verif)]
+        metrics::__verif::yield_point(601);
         let shard_read = shard.read().unwrap_or_else(PoisonError::into_inner);
         if let Some((_, v)) = shard_read.raw_entry().from_key_hashed_nocheck(hash, key) {
             op(v)
         } else {
             // Switch to write guard and insert the handle first.
             drop(shard_read);
+            #[cfg(metrics_verif)]
+            metrics::__verif::yield_point(602);
             let mut shard_write = shard.write().unwrap_or_else(PoisonError::into_inner);
             let v = if let Some((_, v)) = shard_write.raw_entry().from_key_hashed_nocheck(hash, key)
             {
